@@ -113,6 +113,32 @@ def run(ck, ctx):
         ck.ob("R01.2", "maxLOS^2 == core_alt^2 - R^2 (horizon distance)",
               P2.equal(m2, P2.ref("core**2 - R2", e2)), nodes["maxL"], "RegionGeom.__init__",
               "upper limit of the line-of-sight length", sides={"code": P2.show(m2)[:200]})
+        # the sampled region is the configured one: inner edge at the configured angle from the limb, azimuth range
+        # and cone half-angle as configured
+        Rn = D.A("earth_radius")
+        cfgv = {"lim": ("simulation", "angle_from_limb"), "azi": ("simulation", "max_azimuth_angle"),
+                "chk": ("simulation", "max_cherenkov_angle")}
+        cn = {}
+        for k_, path in cfgv.items():
+            n_ = D.cfg
+            for p_ in path:
+                n_ = I.cfg_attr(n_, p_, None)
+            cn[k_] = n_
+        P4 = PolyFacet(I, opaque_ids={nodes["core"].id, nodes["R2"].id, Rn.id} | {n_.id for n_ in cn.values()})
+        e4 = {"core": P4.of(nodes["core"]), "R2": P4.of(nodes["R2"]), "R": P4.of(Rn),
+              **{k_: P4.of(n_) for k_, n_ in cn.items()}}
+        e4["a"] = P4.ref("pi/2 - arccos(R/core) - lim", e4)
+        ck.ob("R01.2", "minLOS == core cos(a) - sqrt(R^2 - (core sin(a))^2) with a = (nadir angle of the horizon) - "
+              "angle_from_limb: the inner edge of the sampled region is the configured one",
+              P4.equal(P4.of(nodes["minL"]), P4.ref("core*cos(a) - sqrt(R2 - (core*sin(a))**2)", e4)), nodes["minL"],
+              "RegionGeom.__init__", "lower limit of the line-of-sight length",
+              sides={"code": P4.show(P4.of(nodes["minL"]))[:300]})
+        ck.ob("R01.2", "spot azimuth range == +- max_azimuth_angle / 2",
+              P4.equal(P4.of(nodes["maxPhiS"]), P4.ref("azi/2", e4)) and
+              P4.equal(P4.of(nodes["minPhiS"]), P4.ref("-azi/2", e4)), nodes["maxPhiS"], "RegionGeom.__init__",
+              P4.show(P4.of(nodes["maxPhiS"]))[:120])
+        ck.ob("R01.2", "A == sin(max_cherenkov_angle)", P4.equal(P4.of(nodes["A"]), P4.ref("sin(chk)", e4)),
+              nodes["A"], "RegionGeom.__init__", P4.show(P4.of(nodes["A"]))[:120])
         R = D.A("earth_radius")
         P3 = PolyFacet(I, opaque_ids={R.id})
         ck.ob("R01.2", "earth_rad_2 == earth_radius^2",
